@@ -437,10 +437,50 @@ void binary_floats(char const *tn)
 }
 
 // ------------------------------------------------------------------ decimal text
+// Conversions are independent of each other: a type whose operator<< leaves the stream's format flags changed (hex,
+// showbase, fill, width) or that converts something itself while it is being written must not influence the NEXT
+// conversion on the same thread.  sticky_hex / nested_writer are written before every tenth integer.
+struct sticky_hex
+{
+  unsigned v;
+};
+template <class Ch, class Tr>
+std::basic_ostream<Ch, Tr> &operator<<(std::basic_ostream<Ch, Tr> &s, sticky_hex const &x)
+{
+  return s << std::hex << std::showbase << std::setfill(Ch('*')) << x.v; // leaves hex | showbase | fill behind
+}
+struct nested_writer
+{
+  int v;
+};
+template <class Ch, class Tr>
+std::basic_ostream<Ch, Tr> &operator<<(std::basic_ostream<Ch, Tr> &s, nested_writer const &x)
+{
+  s << Ch('<');
+  std::string const inner = fcppt::output_to_std_string(x.v); // a conversion while another one is in progress
+  for (char c : inner)
+    s << s.widen(c);
+  return s << Ch('>');
+}
+inline void disturb_the_thread()
+{
+  static unsigned n = 0;
+  if (++n % 10 != 0)
+    return;
+  VF_COUNT("text/conversions-after-a-flag-changing-or-nested-conversion");
+  if (fcppt::output_to_std_string(sticky_hex{255}) != "0xff")
+    vf::violation("text/sticky-manipulators/own-output", "mismatch", fcppt::output_to_std_string(sticky_hex{255}));
+  std::string const nested = fcppt::output_to_std_string(nested_writer{42});
+  if (nested != "<42>")
+    vf::violation("text/nested-conversion/outer-text-lost", "mismatch", "got \"" + nested + "\" want \"<42>\"");
+  (void)fcppt::output_to_std_wstring(sticky_hex{255});
+}
+
 template <class T>
 void text_one(T v, std::string const &e)
 {
   VF_COUNT("text/roundtrips");
+  disturb_the_thread();
   std::string s = fcppt::output_to_std_string(v);
   if constexpr (sizeof(T) > 1)
     if (s != std::to_string(v))
@@ -1186,7 +1226,7 @@ void io_string_wrappers()
 
 void body()
 {
-  for (char const *b : {"io/write-read", "vector/sequences-in-one-stream", "vector/non-decimal-base-roundtrips", "io/read-from-failed-stream", "io/write-to-full-device", "utf8/invalid-wide/reported-as-failure", "utf8/stateful-facet/strings", "text/grouping-locale/written-with-separator", "text/roundtrips", "text/char-types", "text/malformed", "enum/roundtrips", "enum/non-names",
+  for (char const *b : {"io/write-read", "vector/sequences-in-one-stream", "vector/non-decimal-base-roundtrips", "io/read-from-failed-stream", "io/write-to-full-device", "text/conversions-after-a-flag-changing-or-nested-conversion", "utf8/invalid-wide/reported-as-failure", "utf8/stateful-facet/strings", "text/grouping-locale/written-with-separator", "text/roundtrips", "text/char-types", "text/malformed", "enum/roundtrips", "enum/non-names",
                         "vector/roundtrips", "vector/malformed", "utf8/strings", "utf8/scalars-singly", "utf8/narrow-growth/x4",
                         "utf8/narrow-growth/x2-3", "utf8/narrow-growth/lt-x2", "utf8/incomplete-input", "utf8/invalid-input",
                         "utf8/env-locale-strings", "io-string/roundtrips"})
